@@ -27,7 +27,7 @@ TEXT_CLASSES = ["plain", "plain", "colon_meta", "no_event_comments", "edge_x", "
 def pinned(tier):
     repo = os.environ.get("VERIF_REPO", "/repo")
     files = sorted(glob.glob(os.path.join(repo, "rsc/maps/osu/*.osu")))
-    return ([dict(cls="corpus", path=p) for p in (files if tier == "thorough" else files[:6])]) + ([dict(cls="repo_test_suite", select=['tests/unit_tests/osu', 'tests/algorithm_tests'])] if tier == "thorough" else [])
+    return [dict(cls="c_locale")] + ([dict(cls="corpus", path=p) for p in (files if tier == "thorough" else files[:6])]) + ([dict(cls="repo_test_suite", select=['tests/unit_tests/osu', 'tests/algorithm_tests'])] if tier == "thorough" else [])
 
 
 def gen(rng, tier, k):
@@ -91,6 +91,9 @@ def run(ctx, case):
     if case.get("cls") == "repo_test_suite":
         from rv.suite import run_repo_tests
         return run_repo_tests(ctx, case.get("select"))
+    if case.get("cls") == "c_locale":
+        from rv.monitors import fileio
+        return fileio.check_c_locale(ctx, "C01", "osu")
     from reamber.osu.OsuMap import OsuMap
     from rv.gen import charts
     from rv.monitors.osu import read_domain, write_domain
